@@ -19,7 +19,7 @@ struct Obs46 {
 
 struct DepthMon {
   std::atomic<long> maxStack{0}, maxNest{0}, bodies{0};
-  std::atomic<long> capStack{512 * 1024}, capNest{80};
+  std::atomic<long> capStack{512 * 1024}, capNest{80}, hardStop{5 * 1024 * 1024};
   std::atomic<int> tripped{0};
   void reset() {
     maxStack.store(0, std::memory_order_relaxed);
